@@ -407,7 +407,7 @@ func cmdCheck(args []string) int {
 	for _, r := range runs {
 		n := 0
 		for _, s := range r.Samples {
-			if n >= 12 {
+			if n >= 12 && !r.SampleAll {
 				break
 			}
 			samples = append(samples, s)
